@@ -1,7 +1,7 @@
 (* Theory/RevSpec.v -- proofs for C22 over Model/RevSpec.v. *)
 From Coq Require Import List Arith Bool Lia ZArith Permutation.
 From BV Require Import Lib.Dag Theory.DagFacts Lib.DagMergeSort Theory.DagMergeSortFacts
-                       Theory.DagMergeSortMainline Model.RevSpec.
+                       Theory.DagMergeSortMainline Theory.DagMergeSortRevnos Model.RevSpec.
 Import ListNotations.
 
 (* ---- the left-hand history never repeats a revision ----------------------- *)
@@ -811,3 +811,14 @@ Proof.
     unfold last_revno, lh. rewrite T. reflexivity.
   - exfalso. apply Hout. unfold lh in Hm. rewrite T in Hm. exact Hm.
 Qed.
+
+(* ... and the revnos ARE distinct (Theory/DagMergeSortRevnos.v): ms_good holds for
+   every consistent branch *)
+Theorem ms_good_holds b (t : revid) : wf_dag (br_g b) = true -> br_tip b = Some t ->
+  t < length (br_g b) -> lefthand_present (br_g b) t = true -> ms_good b.
+Proof.
+  intros W T L P. apply (ms_good_from_distinct b t W T L P). apply merge_sorted_revnos_NoDup.
+Qed.
+
+Theorem ms_good_empty b : br_tip b = None -> ms_good b.
+Proof. intros T. unfold ms_good. rewrite T. cbn. split; [constructor | intros e []]. Qed.
